@@ -13,6 +13,7 @@ import (
 	"io/ioutil"
 	"net/http"
 	"os"
+	"regexp"
 	"strings"
 	"sync"
 	"time"
@@ -385,6 +386,8 @@ func (s *Server) getUpdate(ctx context.Context, targetInfo *targetInfo, prefix *
 
 	filteredValues := make([]*configapi.PathValue, 0)
 	pathRegexp := utils.MatchWildcardRegexp(pathInfo.pathAsString, false)
+	// A path selects a value only at a path element boundary: /a/b selects /a/b, /a/b/c and /a/b[k=v]/c but not /a/bc
+	pathRegexp = regexp.MustCompile(strings.TrimSuffix(pathRegexp.String(), "/") + `($|/|\[)`)
 	for _, cv := range configValuesAllowed {
 		if pathRegexp.MatchString(cv.Path) && !cv.Deleted {
 			filteredValues = append(filteredValues, cv)
